@@ -9,8 +9,9 @@
    here), bounds, the binary flag, descriptions, the owner of every definition, dictionary order.
    Lowering functions are excluded by the property's quantifier (lower_funcs = []).
    Python sets (Extension.runtime_reqs, the set built inside with_runtime_reqs) are modelled by their
-   canonical form: strictly increasing lists of interned names.  Objects have value semantics: a
-   definition object is added to one extension only (see design.d/C10.md for the aliasing finding). *)
+   canonical form: strictly increasing lists of interned names.  Objects have value semantics in the
+   main part; Section Shared hands one definition object to several extensions, Section Heap adds
+   object identity (Extension objects with the same name; see design.d/C10.md). *)
 From Coq Require Import NArith ZArith List Bool Arith.
 Import ListNotations.
 From HV Require Import lib.PyDict lib.Harness model.Types.
@@ -245,7 +246,9 @@ Arguments sextension : clear implicits.
    The same Python object may be added to different extensions.  add_* mutates an unowned object (or
    one already owned by the receiving extension) in place, and stores a COPY when the object is owned
    by another extension (ext.py after the C10 fix); the caller's handle then keeps denoting the first
-   owner's object.  Owners are compared by name: the extensions of a world have distinct names. *)
+   owner's object.  Owners are compared by name here: adequate for extensions with distinct names, and
+   value-equal to the code's behaviour otherwise (re-stamping with the same name is idempotent); WHICH
+   object owns a definition when names coincide is the business of Section Heap below. *)
 Section Shared.
   Context {T V M : Type}.
   Inductive obj := OType (t : atypedef) | OOp (o : aopdef T M) | OValue (v : avalue V).
@@ -277,6 +280,91 @@ Section Shared.
 End Shared.
 Arguments obj : clear implicits.
 Arguments world : clear implicits.
+
+(* ---- the same world with object IDENTITY (seeded round 2) ----
+   `op_def._extension is not self` compares Extension OBJECTS, not names: two Extension objects may carry
+   the same name (an extension and its from_json(to_json()) copy, the next version of an extension, ...).
+   Here an Extension object is its index in the world, a definition object is an address of a heap of
+   cells, a cell is the object's fields plus its `_extension` pointer (an index), and the three
+   dictionaries of an Extension object hold addresses.  The caller's handle j is address j for ever:
+   add_* mutates the cell in place when it is unowned or owned by the receiving Extension object, and
+   otherwise allocates a copy (dataclasses.replace) at a fresh address and stores that. *)
+Section Heap.
+  Context {T V M : Type}.
+  Record cell := { c_obj : obj T V M; c_ext : option nat }.
+  Record rext := { r_name : name; r_version : version; r_reqs : list name;
+                   r_types : list (name * nat); r_values : list (name * nat);
+                   r_ops : list (name * nat) }.
+  Record heapw := { hw_exts : list rext; hw_heap : list cell }.
+  Definition new_rext (n : name) (v : version) (reqs : list name) : rext :=
+    {| r_name := n; r_version := v; r_reqs := canon reqs; r_types := []; r_values := []; r_ops := [] |}.
+  (* the fields add_* reads of the receiving extension *)
+  Definition hdr_of (x : rext) : extension T V M :=
+    {| e_name := r_name x; e_version := r_version x; e_reqs := r_reqs x;
+       e_types := []; e_values := []; e_ops := [] |}.
+  (* what add_* writes into the object it stores *)
+  Definition stamp (x : rext) (o : obj T V M) : obj T V M := snd (add_obj (hdr_of x) o).
+  Definition obj_name (o : obj T V M) : name :=
+    match o with OType t => atd_name t | OOp d => aod_name d | OValue v => av_name v end.
+  (* self.types / self.operations / self.values [o.name] = <address a> *)
+  Definition store (x : rext) (o : obj T V M) (a : nat) : rext :=
+    match o with
+    | OType _ => {| r_name := r_name x; r_version := r_version x; r_reqs := r_reqs x;
+                    r_types := dset N.eqb (r_types x) (obj_name o) a;
+                    r_values := r_values x; r_ops := r_ops x |}
+    | OOp _ => {| r_name := r_name x; r_version := r_version x; r_reqs := r_reqs x;
+                  r_types := r_types x; r_values := r_values x;
+                  r_ops := dset N.eqb (r_ops x) (obj_name o) a |}
+    | OValue _ => {| r_name := r_name x; r_version := r_version x; r_reqs := r_reqs x;
+                     r_types := r_types x; r_values := dset N.eqb (r_values x) (obj_name o) a;
+                     r_ops := r_ops x |}
+    end.
+  (* exts[fst ij].add_*(handle (snd ij)) *)
+  Definition hstep (w : heapw) (ij : nat * nat) : heapw :=
+    match nth_error (hw_exts w) (fst ij), nth_error (hw_heap w) (snd ij) with
+    | Some x, Some c =>
+        let copied := match c_ext c with None => false | Some k => negb (Nat.eqb k (fst ij)) end in
+        let a := if copied then length (hw_heap w) else snd ij in
+        let c' := {| c_obj := stamp x (c_obj c); c_ext := Some (fst ij) |} in
+        {| hw_exts := update (hw_exts w) (fst ij) (store x (c_obj c) a);
+           hw_heap := if copied then hw_heap w ++ [c'] else update (hw_heap w) (snd ij) c' |}
+    | _, _ => w
+    end.
+  Definition hrun (w : heapw) (p : list (nat * nat)) : heapw := fold_left hstep p w.
+  Definition new_heapw (hdrs : list (name * version * list name)) (objs : list (obj T V M)) : heapw :=
+    {| hw_exts := map (fun h => new_rext (fst (fst h)) (snd (fst h)) (snd h)) hdrs;
+       hw_heap := map (fun o => {| c_obj := o; c_ext := None |}) objs |}.
+
+  (* what an Extension object looks like to a reader: its dictionaries dereferenced (an entry whose
+     address is dangling or holds an object of another kind is dropped; there is none, see the proofs) *)
+  Definition deref {A} (h : list cell) (pick : obj T V M -> option A) (d : list (name * nat))
+    : list (name * A) :=
+    flat_map (fun ka : name * nat =>
+                match nth_error h (snd ka) with
+                | Some c => match pick (c_obj c) with Some x => [(fst ka, x)] | None => [] end
+                | None => []
+                end) d.
+  Definition pick_type (o : obj T V M) := match o with OType t => Some t | _ => None end.
+  Definition pick_op (o : obj T V M) := match o with OOp d => Some d | _ => None end.
+  Definition pick_value (o : obj T V M) := match o with OValue v => Some v | _ => None end.
+  Definition view (h : list cell) (x : rext) : extension T V M :=
+    {| e_name := r_name x; e_version := r_version x; e_reqs := r_reqs x;
+       e_types := deref h pick_type (r_types x); e_values := deref h pick_value (r_values x);
+       e_ops := deref h pick_op (r_ops x) |}.
+  (* per operation held by an Extension object: key, the Extension object its definition reports
+     (`get_extension()`, as an index), the requirement set of its signature *)
+  Definition held_owners (h : list cell) (x : rext) : list (name * option nat * option (list name)) :=
+    flat_map (fun ka : name * nat =>
+                match nth_error h (snd ka) with
+                | Some c => match c_obj c with
+                            | OOp d => [(fst ka, c_ext c, option_map (@pf_reqs T) (sig_poly (aod_sig d)))]
+                            | _ => []
+                            end
+                | None => []
+                end) (r_ops x).
+End Heap.
+Arguments cell : clear implicits.
+Arguments heapw : clear implicits.
 
 (* ---- payload instance used by the correspondence runs and the regenerated data: JSON trees
    (strings and float literals interned by the harness), identity codec ---- *)
